@@ -1652,10 +1652,23 @@ class ListProxy(list):
             return self._parameter.names[index]
         return super().__getitem__(index)
 
+    def _name_of(self, object):
+        """The name under which object is listed: the identical object first, else an equal one."""
+        names = self._parameter.names
+        for k, v in names.items():
+            if v is object:
+                return k
+        for k, v in names.items():
+            if v == object:
+                return k
+        return None
+
     def __setitem__(self, index, object, trigger=True):
         if isinstance(index, (int, slice)):
             if self._parameter.names:
                 self._warn('[index] = object')
+            if isinstance(index, slice) and not isinstance(object, (list, tuple)):
+                object = list(object)       # an iterator serves two lists
             with self._trigger():
                 super().__setitem__(index, object)
                 self._parameter._objects[index] = object
@@ -1703,6 +1716,7 @@ class ListProxy(list):
     def extend(self, objects):
         if self._parameter.names:
             self._warn('.append')
+        objects = list(objects)             # an iterator serves two lists
         with self._trigger():
             super().extend(objects)
             self._parameter._objects.extend(objects)
@@ -1736,9 +1750,10 @@ class ListProxy(list):
                 super().pop(index)
                 object = self._parameter._objects.pop(index)
                 if self._parameter.names:
+                    name = self._name_of(object)
                     self._parameter.names = {
                         k: v for k, v in self._parameter.names.items()
-                        if v is not object
+                        if k != name
                     }
             return object
         if self and not self._parameter.names:
@@ -1757,10 +1772,12 @@ class ListProxy(list):
             super().remove(object)
             self._parameter._objects.remove(object)
             if self._parameter.names:
+                # (the object given may only be equal to the one listed)
+                name = self._name_of(object)
                 copy = self._parameter.names.copy()
                 self._parameter.names.clear()
                 self._parameter.names.update({
-                    k: v for k, v in copy.items() if v is not object
+                    k: v for k, v in copy.items() if k != name
                 })
 
     def update(self, objects, **items):
@@ -1922,6 +1939,12 @@ class Selector(SelectorBase, _SignatureSelector):
 
     @objects.setter
     def objects(self, objects):
+        if isinstance(objects, ListProxy):
+            # the view of a Selector's objects (possibly of this one): take
+            # what it shows, not the view itself
+            self.names = dict(objects._parameter.names)
+            self._objects = list(objects)
+            return
         if isinstance(objects, collections.abc.Mapping):
             self.names = objects
             self._objects = list(objects.values())
